@@ -279,6 +279,23 @@ func C17(c *Ctx) {
 
 	c.noDropRules("C17-3")
 
+	r.Rule("C17-5", "util.GetDocCommentOn returns only `Doc` comment groups of the enclosing declaration nodes (never a trailing line comment), each under Doc != nil")
+	if fn := c.MustFunc("C17-5", "/pkg/util", "GetDocCommentOn"); fn != nil {
+		n := 0
+		for i, ret := range core.Returns(fn) {
+			t := c.O.Of(ret.Results[0])
+			if t.Is("const", "nil") {
+				continue
+			}
+			n++
+			isDoc := t.Kind == "field" && len(t.Name) > 4 && t.Name[len(t.Name)-4:] == ".Doc" && len(t.Name) > 4 && t.Name[:4] == "ast."
+			d := c.ReachOf(ret)
+			nonNil := c.M(false, isNilCmp(func(x *core.Term) bool { return x.String() == t.String() }))
+			r.Check("C17-5", sprintf("%s:return%d", FnKey(fn), i+1), c.InstrPos(ret), isDoc && d.Implies(nonNil), "the doc lookup may return something other than a non-nil Doc group: "+t.String())
+		}
+		r.Floor("C17-5", "Doc-returning branches of GetDocCommentOn", n, 4)
+	}
+
 	r.Rule("C17-4", "marker identity: both InsertComment calls of an entry plant that entry's marker at positions taken from the interface's own declaration (ToAstNode(file, entry.intf)); the cut regexp and the replacement use the same entry's marker")
 	if fn := c.MustMethod("C17-4", "/pkg/parser", "Parser", "GenerateBaseCode"); fn != nil {
 		ins := c.CallsIn(fn, pUtil+"InsertComment", false)
